@@ -19,7 +19,7 @@ from fractions import Fraction as F
 import numpy as np
 
 from mc import expand, interp, lattice
-from mc.harness import add_violation, bump, new_part, setup_repo_import
+from mc.harness import add_violation, bump, new_part, quiet, setup_repo_import
 from mc.oracle import FMT, from_ordinal, ordinal, rn
 
 PROPERTY = "C02"
@@ -269,6 +269,54 @@ def w_hypot(task):
     return part
 
 
+def w_shared_context(task):
+    """histories on ONE Context: trace f, then g (same dtype); g must compute exactly what it computes when traced in a
+    fresh Context (no parameter or registry state may leak from one definition to the next)."""
+    fa = setup_repo_import()
+    part = new_part()
+    dtname = task["dtype"]
+    t = DT[dtname]
+    fi = np.finfo(t)
+    names = UNARY + ["hypot"]
+    big = float(fi.max)
+    pts = [0.0, 0.25, 0.5, 0.9, 0.999, 1.0, 1.001, 1.5, 3.0, 1e3, 1e-3, float(fi.smallest_normal), float(fi.smallest_subnormal), float(np.sqrt(fi.max)), float(np.sqrt(fi.max)) * 0.5, float(np.sqrt(fi.max)) * 2,
+           0.3 * big, 0.4 * big, 0.5 * big, 0.5000001 * big, 0.6 * big, 0.75 * big, 0.9 * big, big, float(np.sqrt(fi.smallest_normal)), 1e-5, 1e5, float(fi.eps), float(np.sqrt(fi.eps))]
+    with np.errstate(all="ignore"):
+        X = np.array(pts + [-p_ for p_ in pts], dtype=t)
+    fresh = {}
+    for g in names:
+        it = get_interp(fa, g, dtname, nargs=2 if g == "hypot" else 1)
+        if isinstance(it, Exception):
+            continue
+        with np.errstate(all="ignore"):
+            fresh[g] = np.asarray(it.run(X, X[::-1].copy()) if g == "hypot" else it.run(X))
+    for f in names[task["lo"]::task["stride"]]:
+        for g in names:
+            if g not in fresh:
+                continue
+            part["evaluations"] += 1
+            try:
+                with quiet():
+                    ctx = fa.Context(paths=[fa.algorithms])
+                    expand.expanded_graph(fa, f, t, nargs=2 if f == "hypot" else 1, ctx=ctx)
+                    g2 = expand.expanded_graph(fa, g, t, nargs=2 if g == "hypot" else 1, ctx=ctx)
+                with np.errstate(all="ignore"):
+                    it2 = interp.Interp(fa, g2)
+                    got = np.asarray(it2.run(X, X[::-1].copy()) if g == "hypot" else it2.run(X))
+            except Exception as e:
+                add_violation(part, f"shared-context:{g}-after-{f}:{dtname}:raises", f"one Context: tracing {f} then {g} [{dtname}] raised {type(e).__name__}: {e}", {"kind": "shared", "f": f, "g": g, "dtype": dtname})
+                continue
+            if f != g:
+                part["nontrivial"] += 1
+            ui = FMT[dtname]["ui"]
+            neq = ~((got.view(ui) == fresh[g].view(ui)) | (np.isnan(got) & np.isnan(fresh[g])))
+            if neq.any():
+                i = int(np.flatnonzero(neq)[0])
+                add_violation(part, f"shared-context:{g}-after-{f}:{dtname}:differs-from-fresh-context", f"one Context: {g} traced after {f} [{dtname}] returns {got[i]!r} at x={X[i]!r}; traced in a fresh Context it returns {fresh[g][i]!r}", {"kind": "shared", "f": f, "g": g, "dtype": dtname})
+    part["samples"].append({"shared_context_pairs": dtname, "functions": names})
+    return part
+
+
 def thresholds(fa, dtname):
     from mc.checks.c03 import graph_constants
 
@@ -354,6 +402,7 @@ def run(run):
         for i in range(0, len(Sb), step):
             tasks.append(dict(dtype=dtname, S_bits=Sb, rows=[i, i + step]))
     run.map(MOD, "w_hypot", tasks, chunksize=2)
+    run.map(MOD, "w_shared_context", [dict(dtype=d, lo=lo, stride=4) for d in ("float32", "float64") for lo in range(4)])
     # rate clause over the regular enumerations
     for dtname in DT:
         for fname in UNARY + ["hypot"]:
@@ -387,6 +436,9 @@ def replay(case):
         # force exact judgement of this point
         if not part["violations"]:
             pass
+    elif case["kind"] == "shared":
+        p2 = w_shared_context(dict(dtype=case["dtype"], lo=(UNARY + ["hypot"]).index(case["f"]), stride=100))
+        return [(v["sig"], v["msg"]) for v in p2["violations"] if v["case"].get("g") == case["g"]]
     elif case["kind"] == "hypot":
         t = DT[case["dtype"]]
         b = [int(np.array(float.fromhex(case[k]), dtype=t).view(FMT[case["dtype"]]["ui"])) for k in ("x", "y")]
